@@ -13,7 +13,7 @@ CONSTANTS
     Orders,      \* [MeshNames -> set of group orders (sequences of group indices) a simulation may feed]
     Patterns,    \* set of records [K, C, M, F] : which positions of the order contribute to each slot (subsets of 1..Len(order))
     MaxAsm,      \* number of assemblies explored
-    Complex,     \* set of BOOLEAN: complex-valued element arrays?
+    Complex,     \* subset of {"real", "all", "tail"}: element arrays real / complex for every group / complex for every group but the first one fed (mixed dtypes)
     Defect,      \* "none" | "sorted_key" | "no_groups_in_key" | "no_ndof_in_key"
     Emit
 
@@ -99,6 +99,13 @@ Expected(m, d, x, order, pos, slot, isM, v, im) ==
     LET gs == Sub(order, pos)  nd == NdofOf(m, d, x)
     IN  Mat(Flat(m, d, gs, isM), nd, IF isM THEN nd ELSE 1, slot, v, im, FALSE, <<>>)
 
+MinPos(ps) == CHOOSE p \in ps : \A q \in ps : p <= q
+MDiff(x, y) == [r \in DOMAIN x |-> [c \in DOMAIN x[r] |-> x[r][c] - y[r][c]]]
+(* imaginary part of K by definition: every contributing group ("all") or every one but the first fed ("tail") *)
+ExpectedIm(m, d, x, order, pos, v, cx) ==
+    IF cx = "all" \/ pos = {} THEN Expected(m, d, x, order, pos, 1, TRUE, v, 1)
+    ELSE Expected(m, d, x, order, pos \ {MinPos(pos)}, 1, TRUE, v, 1)
+
 ---------------------------------------------------------------------------
 Init ==
     /\ mesh \in MeshNames /\ dofn \in DofNs /\ extra = 0 /\ ver = 0 /\ cache = {}
@@ -112,7 +119,10 @@ Assemble(order, pat, cx) ==
            c1 == AsmSlot(k1.cache, mesh, dofn, extra, order, pat.C, 2, TRUE, v, 0)
            m1 == AsmSlot(c1.cache, mesh, dofn, extra, order, pat.M, 3, TRUE, v, 0)
            f1 == AsmSlot(m1.cache, mesh, dofn, extra, order, pat.F, 4, FALSE, v, 0)
-           ki == IF cx THEN AsmSlot(f1.cache, mesh, dofn, extra, order, pat.K, 1, TRUE, v, 1).mat ELSE <<>>
+           ki == IF cx = "real" THEN <<>>
+                 ELSE IF cx = "all" \/ pat.K = {} THEN AsmSlot(f1.cache, mesh, dofn, extra, order, pat.K, 1, TRUE, v, 1).mat
+                 ELSE MDiff(AsmSlot(f1.cache, mesh, dofn, extra, order, pat.K, 1, TRUE, v, 1).mat,
+                            Expected(mesh, dofn, extra, order, {MinPos(pat.K)}, 1, TRUE, v, 1))     \* assembly is linear: tail = all - first
        IN  /\ cache' = f1.cache
            /\ ver' = v
            /\ last' = [none |-> FALSE, mesh |-> mesh, dofn |-> dofn, extra |-> extra, order |-> order, pat |-> pat, ver |-> v, cx |-> cx,
@@ -145,7 +155,7 @@ Exact ==
       /\ last.C = Expected(last.mesh, last.dofn, last.extra, last.order, last.pat.C, 2, TRUE, last.ver, 0)
       /\ last.M = Expected(last.mesh, last.dofn, last.extra, last.order, last.pat.M, 3, TRUE, last.ver, 0)
       /\ last.F = Expected(last.mesh, last.dofn, last.extra, last.order, last.pat.F, 4, FALSE, last.ver, 0)
-      /\ last.cx => last.Ki = Expected(last.mesh, last.dofn, last.extra, last.order, last.pat.K, 1, TRUE, last.ver, 1)
+      /\ last.cx # "real" => last.Ki = ExpectedIm(last.mesh, last.dofn, last.extra, last.order, last.pat.K, last.ver, last.cx)
 
 (* memo entries belong to the current mesh *)
 MemoCurrent == \A ce \in cache : ce.key.mesh = mesh
